@@ -156,6 +156,12 @@ func vxH02Unpack(dotu bool, lo int, hi int, only int, strmax int) {
 	vxAssert(perr == nil, "re-encode-ok")
 	if perr == nil {
 		SetTag(re, fc.Tag)
+		// every variable-length field lies inside the packet and nothing else does: apart from the stat-carrying
+		// messages (whose two size prefixes may disagree with the record) and the .u Tauth/Tattach (whose trailing
+		// n_uname the decoder lets a client omit) the fields account for the whole message
+		if fc.Type != Rstat && fc.Type != Twstat && !(dotu && (fc.Type == Tauth || fc.Type == Tattach)) {
+			vxAssert(len(re.Pkt) == n, "decoded-fields-account-for-every-byte-of-the-message")
+		}
 		fc3, n3, err3 := Unpack(re.Pkt, dotu)
 		vxAssert(err3 == nil, "re-encoded-decodes")
 		if err3 == nil {
